@@ -186,16 +186,73 @@ def _violations(rejects, events, meta):
     return out
 
 
+def routing(ctx: Ctx):
+    """spec/Factory.tla: the model of the routine factory is checked, its (topology, root) cases are emitted and the
+    routine tables the real factory builds for them are validated against the model's own definitions."""
+    from .. import routing as rt
+    rng = random.Random(ctx.seed)
+    base = open(tlc.SPEC_DIR + "/MC_Factory.cfg").read()
+    noliv = base.replace("PROPERTY Terminates\n", "")
+    model = tlc.must(tlc.run("Factory", cfg_text=noliv if ctx.quick else base, workers=16, timeout=7200), "Factory model")
+    states, trans = model.distinct, model.generated
+    if not ctx.quick:
+        m2 = tlc.must(tlc.run("Factory", cfg_text=noliv.replace("MaxFields = 2", "MaxFields = 1")
+                              .replace('Kinds = {"opt"}', 'Kinds = {"opt", "list", "dict", "tupv"}').replace("NClasses = 2", "NClasses = 3"),
+                              workers=16, timeout=7200), "Factory model, 3 classes x 1 field x 4 kinds")
+        states += m2.distinct; trans += m2.generated
+    for cfg, inv in (("MC_Factory_alias.cfg", "RoutingCorrect"), ("MC_Factory_pinned.cfg", "RoutingCorrect"),
+                     ("MC_Factory_reuse.cfg", "RootIsReal"), ("MC_Factory_get.cfg", "RoutingCorrect")):
+        r = tlc.run("Factory", cfg, workers=8, timeout=1800)
+        if r.ok or inv not in r.stdout:
+            raise tlc.MachineryError(f"Factory model not sensitive: {cfg} must violate {inv}")
+    ecfg = (noliv.replace("Emit = FALSE", "Emit = TRUE").replace("INVARIANT BuildNeverFails", "INVARIANT EmitCase\nCONSTRAINT InitOnly"))
+    if not ctx.quick:
+        ecfg = ecfg.replace('Kinds = {"opt"}', 'Kinds = {"opt", "list"}')
+    em = tlc.must(tlc.run("Factory", cfg_text=ecfg, workers=1, timeout=7200), "Factory emit")
+    cases = {json.dumps(p, sort_keys=True): p for p in em.printed if isinstance(p, dict) and "topo" in p}
+    cases = [cases[k] for k in sorted(cases)]
+    ncases = len(cases)
+    cases = rng.sample(cases, min(len(cases), 2500 if ctx.quick else 60000))
+    clear_typelib_caches()
+    events, meta, drift = [], [], []
+    for k, c in enumerate(cases):
+        case = rt.Case(c["topo"], c["root"], variant=k % 8)
+        for direction in ("unmarshal", "marshal"):
+            ev, unmapped = rt.observe(case, direction)
+            if unmapped:                      # the harness could not read the table back: reported, never a verdict
+                if len(drift) < 20:
+                    drift.append({"case": c, "dir": direction, "unmapped": unmapped[:3]})
+                continue
+            events.append(ev)
+            meta.append({"routing": True, "topo": c["topo"], "root": c["root"], "variant": k % 8, "dir": direction})
+        case.dispose()
+    tres, rejects = tlc.validate_trace("Factory_Trace", "Factory_Trace.cfg", events, timeout=7200)
+    viol = []
+    for r in rejects:
+        e, m = events[r["rej"] - 1], meta[r["rej"] - 1]
+        tags = sorted({ft[0] for fs in m["topo"] for ft in fs})
+        viol.append(Violation(clause=r["clause"], case=m,
+                              fields={"dir": m["dir"], "root_tag": m["root"][0], "field_tags": tags, "raised": e["raised"]},
+                              msg=f"{json.dumps(m)[:200]} rootr={e['rootr']} comps={json.dumps(e['comps'])[:300]}"))
+    proxies = sum(1 for e in events if any(s["kind"] == "delayed" for c in e["comps"] for s in c["rs"]))
+    cov = {"factory_model_states": states, "factory_model_transitions": trans, "factory_cases_emitted": ncases,
+           "factory_tables_validated": len(events), "factory_tables_with_proxies": proxies}
+    return viol, cov, drift, len(events)
+
+
 def run(ctx: Ctx) -> Outcome:
     profile = "quick" if ctx.quick else "full"
     events, meta, model, ncomp = collect(ctx, profile)
     tres, rejects = tlc.validate_trace("Member_Trace", "Member_Trace.cfg", events, timeout=7200)
     viol = _violations(rejects, events, meta)
+    rviol, rcov, rdrift, rn = routing(ctx)
+    viol += rviol
     nontrivial = {(json.dumps(e["T"], sort_keys=True), m[0], m[1], m[2]) for e, m in zip(events, meta)
                   if len(e["parts"]) >= 1 and e["whole"]["k"] == "ok"}
     shapes = collections.Counter(m[1] for m in meta)
-    cov = {"states": model.distinct, "transitions": model.generated, "exhaustive": True,
-           "traces_validated_against_impl": len(events), "evaluations": len(events),
+    cov = {"states": model.distinct + rcov["factory_model_states"], "transitions": model.generated + rcov["factory_model_transitions"],
+           "exhaustive": True, **rcov,
+           "traces_validated_against_impl": len(events) + rn, "evaluations": len(events) + rn,
            "distinct_nontrivial": len(nontrivial), "composite_types": ncomp, "by_source_shape": dict(shapes),
            "rule": "every composite type of the TLC universe (collections, mappings, fixed tuples, 15 structured classes incl. same-named "
                    "classes in two modules, shared field names, recursive and mutually recursive ones, aliases as members) x pool values: "
@@ -203,13 +260,28 @@ def run(ctx: Ctx) -> Outcome:
                    "text/bytes, repr text, foreign object, tuple, and one-shot sources: generator, iter(), map(), zip(), items view) unmarshalled whole vs rebuilt from independently obtained member "
                    "routines; class types are visited in both orders; non-trivial = composite succeeded, distinct by (type, direction, shape, value)",
            "samples": [events[len(events) // 3], events[-1]]}
-    return Outcome(level="model_checking", coverage=cov, violations=viol,
+    cov["rule"] += ("; routing: spec/Factory.tla (graph walk, context writes, member resolution, proxies) checked for every topology of 2 "
+                    "classes x <=2 fields over scalar / class / Optional / NewType-or-alias of a class / alias of Optional, every type as "
+                    "root, every order graphlib may choose; four wrong variants must fail; the emitted (topology, root) cases are "
+                    "materialised, the real unmarshaller and marshaller are built (never called) and their routine tables -- kind and "
+                    "type of every member slot -- are judged by Factory's own RoutingCorrect / RootIsReal")
+    return Outcome(level="model_checking", coverage=cov, violations=viol, impl_drift=rdrift,
                    assumptions=["decomposition of inputs and the rebuild with the Python constructors are done by the harness; TLC compares terms",
+                                "routine tables are read from the routine objects' attributes (t, fields_by_var, ordered_routines/stack, keys, values); "
+                                "a table the harness cannot read back is reported as drift, never as a violation",
                                 "member routines are obtained by separate top-level calls in the same process"])
 
 
 def replay(ctx: Ctx, rep: dict) -> Outcome:
     c = rep["case"]
+    if c.get("routing"):
+        from .. import routing as rt
+        case = rt.Case(c["topo"], c["root"], variant=c["variant"])
+        ev, unmapped = rt.observe(case, c["dir"])
+        print("  ", case.ann, ev, unmapped)
+        _, rejects = tlc.validate_trace("Factory_Trace", "Factory_Trace.cfg", [ev])
+        return Outcome(level="model_checking", coverage={"evaluations": 1},
+                       violations=[Violation(clause=r["clause"], case=c, fields={}, msg=json.dumps(ev)[:300]) for r in rejects])
     events, meta, _, _ = collect(Ctx(pid="C05", tier="quick", seed=ctx.seed), "quick")
     key = json.dumps(c["T"], sort_keys=True)
     sel = [(e, m) for e, m in zip(events, meta) if json.dumps(e["T"], sort_keys=True) == key and m[0] == c["dir"] and m[1] == c["shape"]]
